@@ -185,10 +185,36 @@ class Slicer:
                 uniq.append(x)
         return uniq, entry
 
+    def _promoted(self, idx):
+        """Origin of the value of promoted constant #idx of this body (its own tiny MIR body)."""
+        proms = self.body.raw.get("promoted") or []
+        if idx >= len(proms):
+            return None
+        key = ("prom", idx)
+        if key in self._memo:
+            return self._memo[key]
+        from .facts import Body
+        raw = {"path": self.body.path + "::{promoted#%d}" % idx, "blocks": proms[idx]["blocks"], "locals": proms[idx]["locals"],
+               "arg_count": 0, "span": self.body.raw["span"], "kind": "Promoted"}
+        pb = Body(raw, self.body.crate)
+        ps = Slicer(pb, self.program)
+        rets = pb.return_blocks()
+        if not rets:
+            return None
+        r = rets[0]
+        t = ps.local(0, r, len(pb.blocks[r]["s"]))
+        self._memo[key] = t
+        return t
+
     # -- terms -----------------------------------------------------------------
     def operand(self, op, blk, idx, depth=0):
         if "k" in op:
-            return const_value(op["k"])
+            k = op["k"]
+            if k.get("v") is None and k.get("promoted") is not None:
+                t = self._promoted(k["promoted"])
+                if t is not None:
+                    return t
+            return const_value(k)
         p = op.get("c") or op.get("m")
         return self.place(p, blk, idx, depth)
 
